@@ -197,6 +197,7 @@ Set_isdisjoint(Bucket* self, PyObject* other)
         }
         contained = bucket_contains(self, v);
         if (contained == -1) {
+            Py_DECREF(v);
             goto err;
         }
         if (contained == 1) {
